@@ -13,6 +13,7 @@ import re
 
 from ..core import AnchorError, Undecided
 from ..hirq import decode_fmt_template, fmt_calls, walk
+from ..flow import _strip
 from ..tables import enum_paths, return_value_on_path
 
 CRATES = ["apollo_compiler"]
@@ -599,39 +600,82 @@ def rule_lookup(prog, rep):
         (r"^apollo_compiler::coordinate::TypeAttributeCoordinate::lookup_input_field$", {"InputObject": ("fields", None), "Object": (None, "InvalidType"), "Interface": (None, "InvalidType"), "Enum": (None, "InvalidType"), "Union": (None, "InvalidType"), "Scalar": (None, "InvalidType")}, "arg1.attribute"),
         (r"^apollo_compiler::coordinate::TypeAttributeCoordinate::lookup_enum_value$", {"Enum": ("values", None), "Object": (None, "InvalidType"), "Interface": (None, "InvalidType"), "InputObject": (None, "InvalidType"), "Union": (None, "InvalidType"), "Scalar": (None, "InvalidType")}, "arg1.attribute"),
     ]
+    EXT = ("Scalar", "Object", "Interface", "Union", "Enum", "InputObject")
+
+    def leaf_classes(val):
+        """symbolic return value -> {True: class when the attribute is found, False: when not}"""
+        v = _plain(val)
+        v = re.sub(r"<Result<T, E> as Try>::branch\(([^()]*\([^()]*\))\)\.as:Continue\.0", r"\1", v)
+        tag = None
+        m = re.match(r"Result::map\((.*), fn:apollo_compiler::coordinate::TypeAttributeLookup::(\w+)\)$", v)
+        if m:
+            v, tag = m.group(1), m.group(2)
+        m = re.match(r"Result::Ok\{TypeAttributeLookup::(\w+)\{(.*)\}\}$", v)
+        if m:
+            tag, v = m.group(1), "Result::Ok{%s}" % m.group(2)
+        GET = r"IndexMap::get\((?P<coll>.*?), (?P<key>[\w.]+)\)"
+
+        def ok_class(mm):
+            c = re.search(r"as:(\w+)\.0\)?\.(\w+)$", mm.group("coll"))
+            if not c or "TypeCoordinate::lookup_ref(" not in mm.group("coll"):
+                return ("?coll", mm.group("coll")[-60:])
+            return ("ok", c.group(1), c.group(2), mm.group("key"), tag)
+
+        m = re.match(r"Option::ok_or\(" + GET + r", SchemaLookupError::MissingAttribute\{(?P<k2>[\w.]+)\}\)$", v)
+        if m:
+            return {True: ok_class(m), False: ("MissingAttribute", m.group("k2"))}
+        m = re.match(r"Result::Ok\{" + GET + r"\.as:Some\.0\}$", v)
+        if m:
+            return {True: ok_class(m)}
+        m = re.match(r"Result::Err\{SchemaLookupError::MissingAttribute\{([\w.]+)\}\}$", v)
+        if m:
+            return {False: ("MissingAttribute", m.group(1))}
+        if re.match(r"Result::Err\{SchemaLookupError::InvalidType\{.*TypeCoordinate::lookup_ref\(.*\}\}$", v):
+            return {True: ("InvalidType",), False: ("InvalidType",)}
+        if "from_residual(" in v and "as:Break.0" in v:
+            return {"propagate": True}
+        return {True: ("?", v[:120]), False: ("?", v[:120])}
+
     for pat, table, keyarg in specs:
         fn = prog.fn(pat)
-        sws = [(b, fn.switch_info(b)) for b in sorted(fn.live_blocks())]
-        sws = [(b, i) for b, i in sws if i and i.get("kind") == "enum" and i["adt"].endswith("schema::ExtendedType")]
-        if len(sws) != 1:
-            raise Undecided("%s: expected one match on ExtendedType" % fn.name)
-        sb, info = sws[0]
+        paths = []
+        for atoms, rb, path in enum_paths(fn):
+            vs, found, typed = None, None, True
+            for f in _strip(atoms):
+                names = (f[2],) if f[0] == "variant" else (tuple(f[2]) if f[0] == "variant_in" else None)
+                if names and all(n in EXT for n in names):
+                    vs = set(names) if vs is None else (vs & set(names))
+                elif names and all(n in ("Continue", "Break") for n in names):
+                    typed = typed and "Continue" in names
+                elif names and all(n in ("Some", "None") for n in names) and re.search(r"::get@\d+$", f[1]):
+                    found = names == ("Some",)
+                else:
+                    raise Undecided("%s: unrecognised condition %s" % (fn.name, f))
+            paths.append((vs, found, typed, leaf_classes(return_value_on_path(fn, path))))
+        if not any(not typed for _v, _f, typed, _l in paths):
+            rep.finding("C23.LOOKUP", fn.name, "type-lookup", "the type is not looked up first with TypeCoordinate::lookup_ref(..)? (no path propagates its error)", fn.loc())
         for v, (coll, tag) in sorted(table.items()):
-            reg = _variant_region(fn, sb, info, v)
-            gets = [c for c in fn.live_calls() if c.block in reg and re.search(r"IndexMap::<K, V, S>::get$", c.name)]
-            errs = []
-            for b in reg:
-                for s in fn.stmts(b):
-                    if s[0] == "=" and s[2][0] == "agg" and isinstance(s[2][1], list) and s[2][1][0] == "adt" and s[2][1][1].endswith("SchemaLookupError"):
-                        errs.append(s[2][1][2])
+            ok = True
+            got = {}
+            for found in (True, False):
+                cls = set()
+                for vs, pf, typed, leaf in paths:
+                    if not typed or (vs is not None and v not in vs) or (pf is not None and pf != found):
+                        continue
+                    cls.add(leaf.get(found, ("?no-result-for-%s" % found,)))
+                want = ("InvalidType",) if coll is None else (("ok", v, coll, keyarg, tag) if found else ("MissingAttribute", keyarg))
+                got[found] = sorted(cls)
+                if cls != {want}:
+                    ok = False
             if coll is None:
-                ok = not gets and "InvalidType" in errs
                 desc = "no lookup, Err(InvalidType)"
             else:
-                ok = len(gets) == 1
-                if ok:
-                    g = gets[0]
-                    s0, s1 = fn.sym(g.args[0]), fn.sym(g.args[1])
-                    ok = re.search(r"as:%s\.0\)?\.%s$" % (v, coll), s0) is not None and s1.lstrip("&") == keyarg and "MissingAttribute" in errs
-                    if ok and tag:
-                        # result mapped with the right TypeAttributeLookup constructor
-                        ok = any(re.search(r"Result::<T, E>::map$", c.name) and ("TypeAttributeLookup::%s" % tag) in fn.sym(c.args[1]) for c in fn.live_calls() if c.block in reg)
                 desc = "%s.get(%s)%s, None -> MissingAttribute" % (coll, keyarg, (" -> " + tag) if tag else "")
             rep.obligation(ok)
             if ok:
                 rep.instance("C23.LOOKUP", "%s: %s -> %s" % (fn.name.split("::")[-1], v, desc))
             else:
-                rep.finding("C23.LOOKUP", fn.name, "variant:" + v, "for a %s type the lookup is not `%s`" % (v, desc), fn.loc())
+                rep.finding("C23.LOOKUP", fn.name, "variant:" + v, "for a %s type the lookup is not `%s` (found: %s, not found: %s)" % (v, desc, got[True], got[False]), fn.loc())
     # straight-line lookups: which map, which key, which error
     straight = [
         (r"^apollo_compiler::coordinate::TypeCoordinate::lookup_ref$", r"^Option::ok_or\(IndexMap::get\(&arg2\.types, arg1\), SchemaLookupError::MissingType\{arg1\}\)$"),
